@@ -14,13 +14,17 @@ OBLIGATIONS = ["gc_variables_and_colours_partial", "gc_one_constraint_per_edge",
                "gc_one_constraint_per_edge_soft", "gc_soft_values",
                "ising_forms_agree", "ising_var_distribution_hosts_once",
                "ising_fg_distribution_hosts_once", "ising_fg_distribution_hosts_once_grid",
-               "scenario_removals_distinct_fresh"]
+               "scenario_removals_distinct_fresh",
+               "decimal_rendering_injective", "gc_variables_and_colours", "gc_agents_exact",
+               "ising_names_injective", "ising_fg_mapping_uses_existing_constraints", "ising_generate_grid",
+               "ising_generate_fg_hosts_once", "ising_generate_var_hosts_once", "ising_generate_total"]
 N_QUICK, N_THOROUGH = 320, 5000
 SHARD = 80
 RULE = ("seeded generator arguments: graph colouring through generate(args) (2-10 variables, 1-9 colours, "
         "random / scalefree / grid graphs drawn by the real networkx calls, hard/soft, intentional/"
         "extensional, with/without agents) and direct calls of generate_hard/soft_constraints on "
-        "hand-made edge lists (duplicate, reversed, dangling edges); generate_ising on 1..4 x 1..4 grids, "
+        "hand-made edge lists (duplicate, reversed, dangling edges); generate_ising on 1..4 x 1..4 grids "
+        "(plus a 6% stream of 11x2 .. 1x11 grids with two-digit coordinates), "
         "both forms on the same random.uniform draws, all flag combinations; generate_scenario with 0-4 "
         "events, -1..3 actions, 0-7 agents incl. duplicates; non-trivial = at least one constraint or one "
         "removal event; distinct = distinct case JSON")
@@ -28,8 +32,10 @@ MODELLED = ("generate (after the graph is drawn), generate_hard_constraints, gen
             "generate_ising with its unary/binary helpers and both distributions, generate_scenario are "
             "modelled; every sentence of C30 is a theorem about the model (Prop_C30.v); networkx graphs, "
             "random.randint/uniform/sample are explicit inputs (recorded in the run and replayed by the "
-            "model); expression parsing of intentional constraints, NAryMatrixRelation storage and the "
-            "string rendering of names are tied by the correspondence run only")
+            "model); the decimal / zero-padded / f-string rendering of all generated names is proved "
+            "injective and generate_ising is proved end to end (constraint dict vs factor-graph mapping); "
+            "expression parsing of intentional constraints and NAryMatrixRelation storage are tied by the "
+            "correspondence run only")
 META = dict(
     level_text=("Proof (Coq) that in the model of the generators: graph colouring yields the requested "
                 "variables/colours and exactly one constraint per graph edge with the hard table 1000 on "
@@ -42,7 +48,8 @@ META = dict(
     level_note=("Trusted: Coq kernel/vm_compute, the model M_Gen.v, the harness, networkx (graph shape is an "
                 "input; for Ising the model re-checks that the edge list is a periodic grid), the "
                 "randomness oracles. Ising draws are multiples of 1/8 so float arithmetic is exact. The "
-                "injectivity of the rendered computation names (f-strings) is not proved."),
+                "rendered computation names (f-strings) are proved injective (Prop_C30.ising_names_injective, "
+                "decimal_rendering_injective), so structured names in the model = string keys in the code."),
     technique="Coq proof over executable Gallina model + differential correspondence run",
     design_ref="DESIGN.md §5 C30",
 )
@@ -91,6 +98,11 @@ def gen(rng, n, tier):
             c = dict(kind="ising", R=rng.choice(sizes), C=rng.choice(sizes), extensive=rng.random() < 0.5,
                      no_agents=rng.random() < 0.2, fg_dist=rng.random() < 0.8, var_dist=rng.random() < 0.6,
                      draws=[rng.randint(-16, 16) for _ in range(16 + 32 + 4)])
+            if rng.random() < 0.06:
+                # two-digit coordinates: v_1_11 / v_11_1 / v_1_1 must stay different names
+                c["R"], c["C"] = rng.choice([(11, 2), (2, 12), (12, 1), (1, 11), (11, 3)])
+                c["fg_dist"] = True
+                c["draws"] = [rng.randint(-16, 16) for _ in range(3 * c["R"] * c["C"] + 4)]
         else:
             na = rng.randint(0, 7)
             agents = rng.sample(AGT_POOL, na)
